@@ -146,4 +146,34 @@ FieldMalformed(f, i, mode) ==
     [] i = 4 -> ~EpWellFormed(f[4])
     [] i = 5 -> NumMalformed(f[5])
     [] i = 6 -> NumMalformed(f[6])
+(* ---- the clauses of C08 (and the soundness half of C06) for ONE reader outcome ---- *)
+\* cp: the text; base: a canonical record of an accepted board (or <<>>); baseOk: that record was accepted by this
+\* entry point; mode 0 from_fen(false), 1 from_fen(true), 2 FromStr; k/err/got: the outcome.  Result: set of violations.
+ParseClauses(cp, base, baseOk, mode, k, err, got) ==
+  LET ok == k = "ok"
+      f == Fields(cp)
+      d0 == IF mode \in {0, 2} THEN Denote(cp, 0) ELSE [ok |-> FALSE]
+      d1 == IF mode \in {1, 2} THEN Denote(cp, 1) ELSE [ok |-> FALSE]
+      ds == (IF d0.ok THEN {d0.bs} ELSE {}) \cup (IF d1.ok THEN {d1.bs} ELSE {})
+      fb == Fields(base)
+      canonOk == Len(base) > 0 /\ baseOk
+      diff == IF Len(f) = 6 /\ Len(fb) = 6 THEN {i \in 1..6 : f[i] # fb[i]} ELSE {}
+      i == IF Cardinality(diff) = 1 THEN CHOOSE j \in diff : TRUE ELSE 0
+      aspect == IF i = 1 THEN "board" ELSE IF i = 3 THEN "rights" ELSE IF i = 4 THEN "ep" ELSE IF i = 5 THEN "hmc" ELSE IF i = 6 THEN "fmn" ELSE "none"
+      \* a castling field no reader of this notation can accept: foreign characters, two rights for one (colour, wing),
+      \* a letter on the king's own file (the placement is the base's, hence sound)
+      crBad(md) == ~CrAlphabetOk(f[3], md) \/ (PlacementSound(f[1]) /\ ~CrWellFormed(f[3], PlacementOf(f[1]), md))
+      crBadAll == i = 3 /\ (IF mode = 2 THEN crBad(0) /\ crBad(1) ELSE crBad(mode))
+      fieldBad == i # 0 /\ (FieldMalformed(f, i, mode) \/ crBadAll \/ (ds # {} /\ \A bs \in ds : WrongAspects(bs) = {aspect}))
+      truncated == Len(base) > 0 /\ Len(f) >= 1 /\ Len(f) <= 5 /\ Len(fb) = 6 /\ \A j \in 1..Len(f) : f[j] = fb[j]
+      extended == Len(base) > 0 /\ Len(f) > 6 /\ Len(fb) = 6 /\ SubSeq(f, 1, 6) = fb /\ \A j \in 7..Len(f) : Len(f[j]) > 0
+      S_(c, x) == IF c THEN {x} ELSE {}
+  IN
+  S_(ok /\ ~Structural(cp), <<"C08", "accepted-text-without-six-fields-and-8x8-placement", mode>>)
+  \cup S_(ok /\ ds # {} /\ \A bs \in ds : got # AsPos(bs), <<"C08", "board-is-not-the-position-the-text-denotes", mode>>)
+  \cup S_(ok /\ OneKingEach(got) /\ ~Valid(got), <<"C06", "parser-accepts-unsound-position", mode, Broken(got)>>)
+  \cup S_(ok /\ ~OneKingEach(got), <<"C06", "parser-accepts-unsound-position", mode, {"kings"}>>)
+  \cup S_(canonOk /\ fieldBad /\ (k # "err" \/ err # FieldError(i)), <<"C08", "error-does-not-name-the-bad-field", mode, i, k, err>>)
+  \cup S_(canonOk /\ truncated /\ (k # "err" \/ err # "MissingField"), <<"C08", "too-few-fields-not-reported", mode, k, err>>)
+  \cup S_(canonOk /\ extended /\ (k # "err" \/ err # "TooManyFields"), <<"C08", "too-many-fields-not-reported", mode, k, err>>)
 =============================================================================
